@@ -1,0 +1,17 @@
+//go:build verif
+
+package oracle
+
+import (
+	"sync"
+
+	"github.com/ExocoreNetwork/exocore/x/oracle/keeper"
+)
+
+// VerifC14Restart simulates a process restart of the oracle module (verification hook, build tag verif):
+// all keeper singletons are dropped and the BeginBlock sync.Once is re-armed, so the next BeginBlock
+// re-initialises caches and aggregator context from the committed store.
+func VerifC14Restart() {
+	keeper.VerifC14DropMem()
+	once = sync.Once{}
+}
